@@ -54,6 +54,8 @@ type Scenario struct {
 	Argv      []string    `json:"argv"`
 	Env       [][2]string `json:"env,omitempty"`
 	CompLine  string      `json:"comp_line"`
+	FnErr     bool        `json:"command_fn_error,omitempty"` // command functions return their own error
+	Ctx       string      `json:"dispatch_ctx,omitempty"`     // "" background; "cancelled" before Dispatch; "fn" the command function cancels it; "deadline" already expired
 }
 
 var kindNames = []string{"Bool", "Increment", "String", "Int", "Float64", "StringOptional", "IntOptional", "Float64Optional", "StringSlice", "IntSlice", "Float64Slice", "StringMap", "StringMapVar(prefilled)", "StringSliceVar(prefilled)", "StringVar"}
@@ -111,6 +113,12 @@ func (sc *Scenario) DefinitionCalls() []string {
 	walk("opt", &sc.Root)
 	if sc.Help {
 		out = append(out, "opt.HelpCommand(\"help\")")
+	}
+	if sc.FnErr {
+		out = append(out, "command functions return errors of their own")
+	}
+	if sc.Ctx != "" {
+		out = append(out, "Dispatch context: "+map[string]string{"cancelled": "cancelled before Dispatch", "fn": "cancelled by the command function", "deadline": "deadline already passed"}[sc.Ctx])
 	}
 	return out
 }
@@ -340,6 +348,8 @@ func Generate(seed uint64) *Scenario {
 		sc.HelpName = "info"
 	}
 	sc.DescStyle = []int{0, 0, 0, 1, 2, 3}[r.Intn(6)]
+	sc.FnErr = r.Intn(4) == 0
+	sc.Ctx = []string{"", "", "", "", "cancelled", "fn", "deadline"}[r.Intn(7)]
 	sc.Mode = r.Intn(3)
 	sc.Unknown = r.Intn(3)
 	sc.Lower = r.Intn(6) == 0
